@@ -113,7 +113,33 @@ var checkC08 = def("C08/history", func(c histCase) error {
 	var labels []string
 	maxNest, popsAtNest2 := 0, 0
 
+	// positions handed out by a board are values of the game: once reached, a position object
+	// never changes, whatever is taken back or played afterwards on any board
+	type keptPos struct {
+		p    *board.Position
+		v    board.Position
+		step int
+	}
+	var kept []keptPos
+	keptSeen := map[*board.Position]bool{}
+	checkKept := func(step int, op histOp) error {
+		for _, k := range kept {
+			if *k.p != k.v {
+				return fmt.Errorf("step %d (%v): the position object a board handed out at step %d (%v) has changed since: it now reads %v", step, op, k.step, &k.v, k.p)
+			}
+		}
+		return nil
+	}
 	invariant := func(step int, op histOp, popped *modelBoard) error {
+		if err := checkKept(step, op); err != nil {
+			return err
+		}
+		for _, mb := range boards {
+			if p := mb.b.Position(); !keptSeen[p] && len(kept) < 400 {
+				keptSeen[p] = true
+				kept = append(kept, keptPos{p, *p, step})
+			}
+		}
 		for i, mb := range boards {
 			top := mb.stack[len(mb.stack)-1]
 			got := takeSnap(mb.b)
